@@ -406,4 +406,41 @@ theorem readMessages_cut (w : World) (ce : Enveloper) : ∀ (fs : List Frame) (t
       rw [this]
       simp [Frame.msg, hdec]
 
+/-- The same with error reporting switched on: a complete frame takes no error path. -/
+theorem readRequestMessage_complete_rep (w : World) (st : St) (ce : Enveloper) (hce : st.op.clientEnveloper = some ce)
+    (f a b c d : UInt8) (payload rest : Bytes) (env : Envelope)
+    (hdata : st.src.data = [f, a, b, c, d] ++ payload ++ rest)
+    (hdec : ce.decode f a b c d = some env) (hnt : env.trailer = false) (hlen : env.length = payload.length)
+    (hfit : ¬ env.length > st.op.conf.maxMsg) :
+    (readRequestMessage w st true).1 = .ok (payload, env.compressed) ∧
+    (readRequestMessage w st true).2.2 = false ∧
+    (readRequestMessage w st true).2.1.src.data = rest ∧
+    (readRequestMessage w st true).2.1.src.ending = st.src.ending ∧
+    (readRequestMessage w st true).2.1.op = st.op := by
+  unfold readRequestMessage
+  simp only [hce]
+  have hl5 : 5 ≤ st.src.data.length := by rw [hdata]; simp
+  obtain ⟨s1, h1, h1d, h1e⟩ := readExactly_enough st.src.fuel st.src 5 [] (by have := Source.fuel_ge st.src; omega) hl5
+  rw [h1]
+  have htake : st.src.data.take 5 = [f, a, b, c, d] := by rw [hdata]; simp
+  simp only [List.nil_append, htake, hdec, hnt, Bool.false_eq_true, if_false, hfit]
+  have hs1 : s1.data = payload ++ rest := by rw [h1d, hdata]; simp
+  have hl : env.length ≤ s1.data.length := by rw [hs1, hlen]; simp
+  obtain ⟨s2, h2, h2d, h2e⟩ := readExactly_enough s1.fuel s1 env.length [] (by have := Source.fuel_ge s1; omega) hl
+  rw [h2]
+  simp only [List.nil_append]
+  refine ⟨by rw [hs1, hlen]; simp, trivial, by rw [h2d, hs1, hlen]; simp, by rw [h2e, h1e], trivial⟩
+
+theorem readRequestMessage_clean_end_rep (w : World) (st : St) (ce : Enveloper) (hce : st.op.clientEnveloper = some ce)
+    (hd : st.src.data = []) (he : st.src.ending ≠ .unexpected) :
+    (readRequestMessage w st true).1 = .error .eof ∧ (readRequestMessage w st true).2.2 = false ∧
+    (readRequestMessage w st true).2.1.op = st.op := by
+  unfold readRequestMessage
+  simp only [hce]
+  obtain ⟨s1, h1, _⟩ := readExactly_short st.src.fuel st.src 5 [] (by have := Source.fuel_ge st.src; omega) (by rw [hd]; simp)
+  rw [h1]
+  simp only [hd, List.append_nil]
+  unfold shortErr
+  cases hend : st.src.ending <;> simp_all
+
 end Vanguard
